@@ -342,6 +342,10 @@ func Concat(a, b *Term) *Term {
 		v.Or(v, b.Val)
 		return BVConst(a.W+b.W, v)
 	}
+	// adjacent extracts of the same term: concat(x[h:m+1], x[m:l]) = x[h:l]
+	if a.Op == "extract" && b.Op == "extract" && a.Args[0] == b.Args[0] && a.P[1] == b.P[0]+1 {
+		return Extract(a.P[0], b.P[1], a.Args[0])
+	}
 	return mk("concat", a.W+b.W, a, b)
 }
 
